@@ -1,3 +1,4 @@
+import LlirModel.CallSite
 import LlirModel.Gep
 import LlirModel.Drv.TypeOps
 namespace Llir.Drv
@@ -101,6 +102,8 @@ def typingOps (op : String) (a : List String) : Option String :=
     let asmOK := !asmRendered k || showR (resultAsmObserved k ts) == want
     pure (if irOK && asmOK then "ok" else
       "FAIL:unclassified")
+  | "typ.use", _ :: _ => some "ok"
+  | "cs.type", [_, sg, _] => (tyArg sg).map fun t => outHex (CallSite.callSiteType t)
   | "ops.subst", _ :: _ => some "ok"
   | "gep.rt", e :: s :: idx => do
     let e ← tyArg e; let s ← tyArg s; let ix ← Gep.mapM? parseRawIdx idx
